@@ -1168,7 +1168,7 @@ def extra_cases(pid, tier, seed, rng):
     if pid == "C03": return _record_extremes(rng)
     if pid == "C16": return _record_extremes(rng, entries=("tls_parser_many",)) + _dtls_extremes(rng, many=True)
     if pid == "C10": return _dtls_extremes(rng) + _dtls_extremes(rng, many=True)
-    if pid == "C18": return _nt_cases(tier, rng) + _cipher_cases(tier, rng) + _state_cells(tier, rng) + _defrag_histories(tier, seed, rng)[:1500]
+    if pid == "C18": return _nt_cases(tier, rng) + _cipher_cases(tier, rng) + _state_cells(tier, rng) + (lambda hs: hs[:1500] + [c for c in hs[1500:] if c.origin in ("stress", "oversize")])(_defrag_histories(tier, seed, rng))
     if pid == "C01": return _stress_cases(tier, rng) + _defrag_histories(tier, seed, rng) + _length_sweep("quick", rng) + _record_extremes(rng) + _dtls_extremes(rng)
     if pid == "C09": return _ser_cases(tier, rng)
     if pid == "C05": return _ext_type_sweep(tier, rng)
